@@ -424,9 +424,14 @@ func GenCase(t *rapid.T) Case {
 		c.Peer.FW = []string{c.Peer.Call + "|" + rapid.StringMatching(`[0-9a-f]{8}`).Draw(t, "fwhash"), "TAC9"}
 	}
 	used := map[string]bool{}
-	nl := rapid.SampledFrom([]int{0, 1, 2, 3, 5, 6, 7, 11}).Draw(t, "nlib")
+	// 13+: beyond the 12 elements up to which the standard sorts are insertion sorts (stable by accident)
+	nl := rapid.SampledFrom([]int{0, 1, 2, 3, 5, 6, 7, 11, 13, 17, 24}).Draw(t, "nlib")
 	for i := 0; i < nl; i++ {
-		c.Lib.Queue = append(c.Lib.Queue, msggen.Gen(t, used, c.Lib.Call, c.Peer.Call, 3000))
+		big := 3000
+		if nl > 12 {
+			big = 200
+		}
+		c.Lib.Queue = append(c.Lib.Queue, msggen.Gen(t, used, c.Lib.Call, c.Peer.Call, big))
 	}
 	np := rapid.SampledFrom([]int{0, 1, 2, 3, 5, 6, 7}).Draw(t, "npeer")
 	for i := 0; i < np; i++ {
